@@ -16,6 +16,7 @@ import (
 	"github.com/tink-crypto/tink-go/v2/signature/rsassapss"
 	"github.com/tink-crypto/tink-go/v2/signature/slhdsa"
 	"github.com/tink-crypto/tink-go/v2/verifharness/internal/gen"
+	"github.com/tink-crypto/tink-go/v2/verifharness/internal/ref/mldsaref"
 	"github.com/tink-crypto/tink-go/v2/verifharness/internal/tk"
 )
 
@@ -223,6 +224,17 @@ func drawMlDsa(t *rapid.T, label string, _ bool) (builder, string, uint32) {
 	return s.build, v, id
 }
 
+// mlDsaPublic derives the public key from the 32-byte seed with the harness's own from-the-spec
+// ML-DSA (internal/ref/mldsaref, FIPS 204 Algorithm 6; validated there against Wycheproof and the Go
+// standard library's accumulated vectors), never read from the Tink object.
+func mlDsaPublic(instance string, seed []byte) []byte {
+	p := map[string]*mldsaref.Params{"MLDSA44": mldsaref.MLDSA44, "MLDSA65": mldsaref.MLDSA65, "MLDSA87": mldsaref.MLDSA87}[instance]
+	var xi [32]byte
+	copy(xi[:], seed)
+	pk, _ := mldsaref.KeyGenInternal(p, xi)
+	return pk
+}
+
 func (s mlDsaSpec) build(variant string, id uint32) (*Info, error) {
 	v, ok := map[string]mldsa.Variant{tk.Tink: mldsa.VariantTink, tk.NoPrefix: mldsa.VariantNoPrefix, WithIDRequirement: mldsa.VariantNoPrefixWithPrehashID}[variant]
 	if !ok {
@@ -242,7 +254,7 @@ func (s mlDsaSpec) build(variant string, id uint32) (*Info, error) {
 		return nil, err
 	}
 	i.Secrets = secrets(s.seed)
-	i.Fields["instance"], i.Fields["key_value"], i.Fields["public_key"] = s.instance, clone(s.seed), i.Public.(*mldsa.PublicKey).KeyBytes()
+	i.Fields["instance"], i.Fields["key_value"], i.Fields["public_key"] = s.instance, clone(s.seed), mlDsaPublic(s.instance, s.seed)
 	return i.done(s.build), nil
 }
 
